@@ -28,6 +28,7 @@ bool excluded(int f, int /*path*/, int kind, size_t pos, const fam::Bytes& img, 
     if (f == fam::F_CM && pos >= 8 && pos <= 12 && empty_image) return true;      // num_buckets / num_hashes of an empty image: a valid huge empty sketch
     if (f == fam::F_DENS && pos >= 8 && pos <= 11 && empty_image) return true;     // dimension of an empty image: a valid empty sketch of a huge dimension
     if ((f == fam::F_VO_I || f == fam::F_VO_S || f == fam::F_VOU || f == fam::F_EBPPS) && img.size() <= 8 && pos >= 4 && pos <= 7 && data.size() >= 8 && vf::ref_le32(data.data() + 4) > 65536) return true;  // empty image, huge k
+    if (f == fam::F_CPC && pos == 3 && data[3] >= 20 && data[3] <= 26) return true;  // another valid lg_k up to 26: the harness's own observation (validate) builds a 2^lg_k-row bit matrix
     if (f == fam::F_BLOOM && img.size() <= 24 && pos >= 16 && data.size() >= 20 && vf::ref_le32(data.data() + 16) > (1u << 20)) return true;  // empty image, larger bit-array length: valid image of a huge empty filter (allocated as its builder would)
     if ((f == fam::F_VO_I || f == fam::F_VO_S) && pos >= 4 && pos <= 7 && (img[0] & 0x3f) == 3 && vf::ref_le32(data.data() + 4) > 65536) return true;  // warm-up image, larger k: valid image of a huge sketch
   }
